@@ -343,5 +343,7 @@ def check(run):
                 "offset incl. frame; (c) ThermalProp from max_entangled_ex/gs for beta over two decades, 3-5 schemes: energy, electronic and phonon occupations vs dense "
                 "Gibbs averages in the sector; exact thermal propagation; distinct = case tuples x clause")
     run.sample({"nmol": 2, "scheme": 4, "method": "tdvp_ps", "beta": 2.0, "sector": 1, "contract": "E = Tr(e^{-beta H} H P_1)/Tr(e^{-beta H} P_1) within the accumulated scheme bound"})
-    run.explanation = "bounded only (floating-point convergence); bounds as C09, accumulated over the steps"
+    run.explanation = ("Decided exactly (Engine S): imaginary-time steps of the propagation-and-compression schemes are the stage polynomial in -tau H; the imaginary-time branch "
+                       "of TDVP-PS / PS2 poses exactly the local problems of the integrator for exp(-tau H), both local solver forms. Bounded (floating-point convergence): accuracy "
+                       "bounds as C09, accumulated over the steps; Gibbs averages; closed-form propagators.")
     run.trusted += ["scipy.linalg.expm, dense Gibbs averages", "Model.ham_terms of HolsteinModel as the definition of H (its agreement with the documented formula is C16)"]
